@@ -347,6 +347,19 @@ func (w *JWorld) Open(c *simrt.Chooser, doc *JDoc) J {
 		doc.LSPVer = 1
 	}
 	if doc.DiskMark >= 0 && c.Pct("open-with-disk-text", 40) {
+		if w.Root != "" && c.Pct("rewritten-while-closed", 35) {
+			// another program rewrote the file while it was closed (nobody told the
+			// server); the editor now opens what is on disk
+			var have []int
+			for v := 0; v <= doc.MaxMark; v++ {
+				if doc.Versions[v] != "" && v != doc.DiskMark {
+					have = append(have, v)
+				}
+			}
+			if len(have) > 0 {
+				w.ExtWrite(doc, have[c.Choose("rewritten-to", len(have))])
+			}
+		}
 		// what editors do: the buffer starts as the file on disk
 		doc.Marker = doc.DiskMark
 		doc.History = []int{doc.Marker}
